@@ -225,7 +225,7 @@ func (x *Exec) verify(fn *ssa.Function, ct *Contract, rep *FuncReport) {
 	// type invariants of pointer parameters are assumed when they are dereferenced (nilCheck).
 	// preconditions
 	fc.entry = st.clone()
-	x.assumeInitFacts(st)
+	x.assumeInitFacts(st, fn, ct)
 	gev := x.newEval(nil, st, nil)
 	gev.callee = true
 	for _, cl := range x.prog.cs.Assumes {
@@ -339,47 +339,53 @@ func hasNL(n *LogNode) bool {
 	return false
 }
 
-// solveObligation: first with nonlinear definitions abstracted away (fast, often enough), then the
-// full query through the portfolio.
+// solveObligation tries cheap abstractions of the query first (relevance slicing, nonlinear
+// definitions dropped - both only weaken the hypotheses, so `unsat` is conclusive) and falls back to
+// the full query through the portfolio. A `sat` answer is only accepted for the full query.
 func (x *Exec) solveObligation(n *LogNode, budget int) SolveResult {
 	var spent int64
-	// 1. sliced, nonlinear definitions abstracted
-	q := x.buildQueryOpt(n, true, true)
-	for _, s := range []int{1, 0} {
-		r := runSolver(solvers[s], q, 2, false)
+	try := func(q string, solver int, secs int, label string) (SolveResult, bool) {
+		r := runSolver(solvers[solver], q, secs, false)
 		spent += r.Ms
 		if r.Status == "unsat" {
 			r.Ms = spent
-			r.Solver += "(sliced)"
-			return r
+			r.Solver += label
+			return r, true
 		}
+		return r, false
 	}
-	// 1b. sliced with the relevant families closed under co-occurrence
-	q = x.buildQuerySliced(n, true, true, true)
+	sliced := x.buildQueryOpt(n, true, true)
+	if r, ok := try(sliced, 1, 2, "(sliced)"); ok {
+		return r
+	}
+	full := x.buildQuery(n)
+	r, ok := try(full, 0, 3, "")
+	if ok {
+		return r
+	}
+	if r.Status == "sat" {
+		r.Ms = spent
+		return r
+	}
+	if r, ok := try(sliced, 0, 3, "(sliced)"); ok {
+		return r
+	}
+	closure := x.buildQuerySliced(n, true, true, true)
 	for _, s := range []int{1, 0} {
-		r := runSolver(solvers[s], q, 3, false)
-		spent += r.Ms
-		if r.Status == "unsat" {
-			r.Ms = spent
-			r.Solver += "(sliced-closure)"
+		if r, ok := try(closure, s, 3, "(sliced-closure)"); ok {
 			return r
 		}
 	}
-	// 2. sliced with nonlinear definitions / unsliced without
 	if hasNL(n) {
 		for _, q := range []string{x.buildQueryOpt(n, false, true), x.buildQueryOpt(n, true, false)} {
 			for _, s := range []int{1, 0} {
-				r := runSolver(solvers[s], q, 3, false)
-				spent += r.Ms
-				if r.Status == "unsat" {
-					r.Ms = spent
-					r.Solver += "(abstracted)"
+				if r, ok := try(q, s, 3, "(abstracted)"); ok {
 					return r
 				}
 			}
 		}
 	}
-	r := solve(x.buildQuery(n), budget, false)
+	r = solve(full, budget, false)
 	r.Ms += spent
 	return r
 }
